@@ -13,8 +13,8 @@ import (
 	"sync"
 	"time"
 
-	cmtcoretypes "github.com/cometbft/cometbft/rpc/core/types"
 	cmtcryptoproto "github.com/cometbft/cometbft/proto/tendermint/crypto"
+	cmtcoretypes "github.com/cometbft/cometbft/rpc/core/types"
 
 	consensusAPI "github.com/oasisprotocol/oasis-core/go/consensus/api"
 	"github.com/oasisprotocol/oasis-core/go/consensus/cometbft/stateless"
@@ -175,7 +175,7 @@ func main() {
 	s, err := loadSamples()
 	if err != nil {
 		r.Inconclusive("cannot load the recorded samples: %v", err)
-		r.Finish(60)
+		r.Finish(200)
 		return
 	}
 	c.s = s
@@ -199,7 +199,7 @@ func main() {
 		case <-time.After(limit):
 			r.Inconclusive("watchdog: run exceeded %s", limit)
 			c.flush()
-			r.Finish(60)
+			r.Finish(200)
 		}
 	}()
 
@@ -244,7 +244,7 @@ func main() {
 	r.Assume("normal form excludes: Block.Size (documented unverifiable), sub-second part of Block.Time, LastCommit height/round/block id (the header binds the hash over the commit signatures only), result events/log/info/codespace and begin/end-block events (TODO #6210; not covered by LastResultsHash), validator address/proposer priority/proposer/total power (not covered by the validator set hash), consensus-parameter Meta fields other than block max bytes/gas (not covered by ConsensusHash)")
 	r.Assume("block results at the latest trusted height are only height-checked (documented TODO #6210); the property quantifies over heights below the latest trusted one")
 	r.Assume("synthetic samples are evaluated by the exported functions only (their headers are unsigned)")
-	r.Finish(60)
+	r.Finish(200)
 }
 
 // flush writes the accepted/rejected tallies into the evidence.
